@@ -38,14 +38,16 @@ RESPONSE = "response"  # what the harness' response handler puts in a claimed re
 class SlotSpec:
     """One cache object of the explored world."""
 
-    def __init__(self, ident: int, delay: float, future=None, pops: int | None = None) -> None:  # noqa: ANN001
+    def __init__(self, ident: int, delay: float, future=None, pops: int | None = None, script=None) -> None:  # noqa: ANN001
         self.ident = ident      # index into Model.idents: slots with the same ident share (prefix, number)
         self.delay = delay
         self.future = future    # None | "value" | "default" | "exception": what the tied future gets on timeout
-        self.pops = pops        # identity popped from inside on_timeout
+        # what on_timeout does, in order: ("query", ident) = has/get/constructor guard on that identity, recorded;
+        # ("pop", ident) = pop it (KeyError caught); ("add", slot) = register that (other) cache object: a retry
+        self.script = [tuple(x) for x in (script if script is not None else ([("pop", pops)] if pops is not None else []))]
 
     def params(self) -> dict:
-        return {"ident": self.ident, "delay": self.delay, "future": self.future, "pops": self.pops}
+        return {"ident": self.ident, "delay": self.delay, "future": self.future, "script": [list(x) for x in self.script]}
 
 
 def make_cache_class(prefix: str) -> type:
@@ -53,12 +55,12 @@ def make_cache_class(prefix: str) -> type:
         name = prefix  # for retrieve_cache / has(cls) / pop(cls)
 
         def __init__(self, rc: RequestCache, number: int, delay: float, world=None, slot: int = -1,  # noqa: ANN001
-                     pops=None) -> None:  # noqa: ANN001
+                     script=()) -> None:  # noqa: ANN001
             super().__init__(rc, prefix, number)
             self.delay = delay
             self.world = world
             self.slot = slot
-            self.pops = pops
+            self.script = script
 
         @property
         def timeout_delay(self) -> float:
@@ -67,8 +69,13 @@ def make_cache_class(prefix: str) -> type:
         def on_timeout(self) -> None:
             w = self.world
             w.log.append(("timeout", self.slot, w.loop.time()))
-            if self.pops is not None:
-                w.do_pop(self.pops, "nested")
+            for step in self.script:
+                if step[0] == "pop":
+                    w.do_pop(step[1], "nested")
+                elif step[0] == "query":
+                    w.do_query(step[1])
+                elif step[0] == "add":
+                    w.do_add(step[1], None)
 
         def __repr__(self) -> str:
             return f"<cache slot={self.slot}>"
@@ -120,7 +127,7 @@ class World:
         self.consumed = 0
         self.viol: list = []          # (key, what) produced by the reference while consuming the log
         self.last_viol_start = 0
-        self.objs = [m.classes[m.idents[s.ident][0]](self.rc, m.idents[s.ident][1], s.delay, self, i, s.pops)
+        self.objs = [m.classes[m.idents[s.ident][0]](self.rc, m.idents[s.ident][1], s.delay, self, i, s.script)
                      for i, s in enumerate(m.slots)]
         self.futs: list = [None] * len(m.slots)
         self.tasks: dict = {}         # id(task) -> (slot, seq) for the tasks created inside add(slot)
@@ -160,7 +167,7 @@ class World:
             else:
                 obj.register_future(f, self.fut_value(slot))
             self.futs[slot] = f
-        self.adopting = slot
+        outer, self.adopting = self.adopting, slot
         try:
             if pt is None:
                 r = self.rc.add(obj)
@@ -171,7 +178,7 @@ class World:
         except Exception as e:  # noqa: BLE001
             res = f"exc:{type(e).__name__}:{e}"
         finally:
-            self.adopting = None
+            self.adopting = outer
         self.log.append(("add", slot, self.loop.time(), pt, res))
 
     def do_pop(self, ident: int, via: str) -> None:
@@ -204,6 +211,19 @@ class World:
             if f is not None and not f.done():
                 f.set_result(RESPONSE)
         self.log.append(("pop", ident, self.loop.time(), res, via))
+
+    def do_query(self, ident: int) -> None:
+        """What a callback sees when it looks an identity up (used from inside on_timeout)."""
+        prefix_i, number = self.m.idents[ident]
+        prefix, cls = self.m.prefixes[prefix_i], self.m.classes[prefix_i]
+        has = bool(self.rc.has(prefix, number)) or bool(self.rc.has(cls, number))
+        g = self.rc.get(prefix, number)
+        try:
+            cls(self.rc, number, 1.0)
+            refused = False
+        except RuntimeError:
+            refused = True
+        self.log.append(("query", ident, self.loop.time(), has, None if g is None else self.slot_of(g), refused))
 
     def do_clear(self) -> None:
         self.rc.clear()
@@ -310,7 +330,7 @@ class Model(core.BfsModel):
 
     @classmethod
     def from_params(cls, p: dict) -> "Model":
-        slots = [SlotSpec(x["ident"], x["delay"], x["future"], x["pops"]) for x in p["slots"]]
+        slots = [SlotSpec(x["ident"], x["delay"], x["future"], x.get("pops"), x.get("script")) for x in p["slots"]]
         return cls(p["name"], slots, p["seed"], p["identities"], p["io_pop"], tuple(p["passthrough_timeouts"]),
                    p["handler"])
 
@@ -661,6 +681,10 @@ def configs(ctx: core.Ctx) -> list[tuple[Model, int]]:
     four = [SlotSpec(0, 1.0, "value"), SlotSpec(1, 1.0, None, pops=0), SlotSpec(0, 2.0, "default"),
             SlotSpec(2, 3.0, "exception")]
     four_ids = [(0, 0), (0, 1), (1, 0)]  # the last one: other prefix, same number as the first
+    # callbacks that deal with their *own* identity: look it up and try to claim it / retry with a new object
+    selfpop = [SlotSpec(0, 1.0, "value", script=[("query", 0), ("pop", 0), ("query", 0)])]
+    retry = [SlotSpec(0, 1.0, "value", script=[("query", 0), ("add", 1), ("query", 0)]), SlotSpec(0, 2.0, "default")]
+    popretry = [SlotSpec(0, 1.0, "exception", script=[("pop", 0), ("add", 1), ("query", 0)]), SlotSpec(0, 2.0, "value")]
     if ctx.thorough:
         return [
             (Model("one", one, s, pt_values=(0.0, 0.5), handler=True), 12),
@@ -668,12 +692,18 @@ def configs(ctx: core.Ctx) -> list[tuple[Model, int]]:
             (Model("twins", twins, s), 8),
             (Model("three", three, s, io_pop=False), 7),
             (Model("four", four, s, four_ids, io_pop=False), 6),
+            (Model("selfpop", selfpop, s), 10),
+            (Model("retry", retry, s), 7),
+            (Model("popretry", popretry, s), 7),
         ]
     return [
         (Model("one", one, s, pt_values=(0.0, 0.5), handler=True), 8),
         (Model("popper", popper, s), 5),
         (Model("twins", twins, s), 5),
         (Model("four", four, s, four_ids, io_pop=False), 4),
+        (Model("selfpop", selfpop, s), 6),
+        (Model("retry", retry, s), 4),
+        (Model("popretry", popretry, s), 4),
     ]
 
 
@@ -718,7 +748,9 @@ ASSUMPTIONS = [
     "that one callback scheduled back to back (a real loop cannot do that either)",
     "the response handler completes the future of the request it claimed (as every handler in the library does); "
     "futures of requests removed by clear() are not checked (the statement is silent)",
-    "on_timeout callbacks that pop do catch KeyError; callbacks that re-add from inside on_timeout are not explored",
+    "on_timeout callbacks that pop do catch KeyError; a callback that retries registers *another* cache object under "
+    "the same identity (re-adding the very object whose timeout task is still running is not explored); only the "
+    "first object of such a pair retries, so every retry chain ends",
     "cache objects are re-added as the same object (the API allows it; the library itself always builds a new one)",
     "wait_for()/waiters, class filters of passthrough() and timeouts longer than 3 s are not explored",
     "the harness keeps strong references to the timeout tasks it labels (TaskManager only keeps weak ones); a pending "
